@@ -103,7 +103,9 @@ def correspondence(pid, tier, seed):
     for si_, a in enumerate(ans):
         for (i, code, _) in lib.parse_triples(a):
             bad.append((si_ * per + i, code))
-    failing = []
+    rounding = [(g, c - 100) for g, c in bad if 100 <= c < 200]      # torque/current within 1e-9 relative: recorded, not a broken tie
+    bad = [(g, c) for g, c in bad if not 100 <= c < 200]
+    failing = [dict(case=pairs[g2][0], impl=pairs[g2][1], code=100 + c2) for g2, c2 in rounding[:10]]
     if bad:
         g, code = bad[0]
         failing = [dict(case=pairs[g2][0], impl=pairs[g2][1], code=c2) for g2, c2 in bad[:10]]
@@ -115,7 +117,7 @@ def correspondence(pid, tier, seed):
         dist[k] = dist.get(k, 0) + 1
     nt = len({lib.sha(c) for c, r in pairs if nontrivial(c)})
     return dict(ok=not broken, evaluations=len(pairs), nontrivial=nt, samples=[dict(case=c, impl=r) for c, r in pairs[:4]], rule=RULE,
-                distribution=dict(outcomes=dist), broken=broken, failing_cases=failing)
+                distribution=dict(outcomes=dist, rounding_level_only=len(rounding)), broken=broken, failing_cases=failing)
 
 
 def doc_check(c, r):
